@@ -31,7 +31,7 @@ func (p *Parser) parseApply(parser *Parser) (Node, error) {
 	}
 
 	// Expect endapply tag
-	if parser.tokenIndex >= len(parser.tokens) || parser.tokens[parser.tokenIndex].Type != TOKEN_BLOCK_START {
+	if parser.tokenIndex >= len(parser.tokens) || !isBlockStartToken(parser.tokens[parser.tokenIndex].Type) {
 		return nil, fmt.Errorf("expected endapply tag at line %d", applyLine)
 	}
 	parser.tokenIndex++
